@@ -577,6 +577,13 @@ func (oa *orderAnalysis) checkSort(c *ssa.Call) {
 		r.bad("C11.sort-canon", key, p.pos(less.Pos()), "the comparator does not index the sorted slice")
 		return
 	}
+	// the key must tell apart elements that differ: a string glued together
+	// from two variable parts without a separator does not (R8), also when it
+	// is built by a small helper (a String() method of a key type)
+	if bad, desc := nonInjectiveKey(bo.X, 0); bad {
+		r.bad("C11.sort-canon", key, p.pos(less.Pos()), "the sort key is the concatenation "+desc+" of variable parts without a separator: different elements can have equal keys (\"ab\"+\"c\" = \"a\"+\"bc\"), they then keep their input order, so the output depends on it")
+		return
+	}
 	r.ok("C11.sort-canon", key, p.pos(c.Pos()), "strict '<' on "+shorten(sx))
 }
 
@@ -1611,4 +1618,25 @@ func onlyErrorReturns(b *ssa.BasicBlock, loop map[*ssa.BasicBlock]bool, seen map
 		}
 	}
 	return true
+}
+
+// nonInjectiveKey: v, or what a small helper it is the result of returns, is a
+// non-injective concatenation.
+func nonInjectiveKey(v ssa.Value, depth int) (bool, string) {
+	if bad, desc := nonInjectiveConcat(v); bad {
+		return true, desc
+	}
+	if depth > 2 {
+		return false, ""
+	}
+	if c, _ := callOf(v); c != nil {
+		if g := c.Common().StaticCallee(); g != nil && g.Blocks != nil && smallHelper(g) || (g != nil && g.Blocks != nil && g.Name() == "String" && g.Pkg != nil && g.Pkg.Pkg.Path() == targetPkgPath) {
+			for _, rv := range returnsOf(g) {
+				if bad, desc := nonInjectiveKey(rv, depth+1); bad {
+					return true, desc
+				}
+			}
+		}
+	}
+	return false, ""
 }
